@@ -1359,7 +1359,11 @@ class Store:
         flow_updates.extend(flow_paths)
 
         self._apply_subschema_path(path)
-        self.get_path(path).apply_defaults()
+        target = self.get_path(path)
+        target.apply_defaults()
+        # the variables that only the sub-schema declares exist now:
+        # give them their part of the initial state, as divide() does
+        target.set_value(insertion['initial_state'])
 
         return process_updates, step_updates, flow_updates, topology_updates
 
